@@ -1,12 +1,12 @@
 package main
 
 import (
-	"os"
 	"fmt"
 	"go/ast"
 	"go/parser"
 	"go/token"
 	"go/types"
+	"os"
 	"sort"
 	"strings"
 
@@ -76,8 +76,48 @@ func (in *inst) unknownResults(st *State, sig *types.Signature, prefix string) [
 
 // havocAll forgets every heap (new epoch).
 func (fv *FnVC) havocAll(st *State, why string) {
+	fv.havocAllOpt(st, why, true)
+}
+
+// reachesPrivate: some receiver/argument term is, or is derived from, the
+// private root - the callee can then write the private memory, and keeping it
+// across the havoc would contradict the callee's own postcondition (every later
+// obligation on the path would hold vacuously).
+func (fv *FnVC) reachesPrivate(env map[string]Val) bool {
+	if fv.private == "" {
+		return false
+	}
+	var has func(v Val) bool
+	has = func(v Val) bool {
+		if v.T != "" && strings.Contains(v.T, fv.private) {
+			return true
+		}
+		for _, f := range v.Fs {
+			if has(f) {
+				return true
+			}
+		}
+		return false
+	}
+	for _, v := range env {
+		if has(v) {
+			return true
+		}
+	}
+	return false
+}
+
+// havocAllOpt: with keepPrivate=false the private root's memory is forgotten
+// too (non-escaping local cells are still kept).
+func (fv *FnVC) havocAllOpt(st *State, why string, keepPrivate bool) {
 	fv.note("havoc of all memory: " + why)
 	fv.epoch++
+	if !keepPrivate && fv.private != "" {
+		fv.note("private memory not kept: " + why)
+		saved := fv.private
+		fv.private = ""
+		defer func() { fv.private = saved }()
+	}
 	vlr := fv.visibleLocalRoots()
 	if fv.private != "" || len(vlr) > 0 {
 		// memory owned by the private root, and local cells that never escape,
@@ -435,7 +475,7 @@ func (in *inst) applyContract(n *vnode, st *State, ct *Contract, callee string, 
 				pre[k] = fv.heapOf(st, k, r.sort)
 			}
 		}
-		fv.havocAll(st, "callee "+callee+" assigns *")
+		fv.havocAllOpt(st, "callee "+callee+" assigns *", !fv.reachesPrivate(env))
 		var keys []string
 		for k := range regs {
 			keys = append(keys, k)
@@ -1031,7 +1071,9 @@ func (in *inst) appendB(n *vnode, st *State, s, t Val, tsT, ttT, rt types.Type) 
 			if tIsStr {
 				fromT = func(j string) string { return "(s_at " + tT + " " + j + ")" }
 			} else {
-				fromT = func(j string) string { return fv.loadRaw(parent, rebuild("(sarr "+tT+")", "(bvadd (soff "+tT+") "+j+")")) }
+				fromT = func(j string) string {
+					return fv.loadRaw(parent, rebuild("(sarr "+tT+")", "(bvadd (soff "+tT+") "+j+")"))
+				}
 			}
 			inPlace := fromT("(bvsub (eidx " + el + ") (bvadd (soff " + sT + ") (slen " + sT + ")))")
 			fresh := ite("(bvslt (eidx "+el+") (slen "+sT+"))",
@@ -1149,13 +1191,13 @@ func (in *inst) runDefers(n *vnode, st *State, x *ssa.RunDefers) {
 // writeShape describes which locations of one heap a loop may write: any
 // (total), array/slice elements, and/or fields with given indices.
 type writeShape struct {
-	sort   string
-	total  bool
-	elems  bool
-	fields map[int]bool
+	sort        string
+	total       bool
+	elems       bool
+	fields      map[int]bool
 	calleeTotal bool     // a callee's declared frame covers this heap: anything but non-escaping local cells
-	cells  []string      // local cells written directly (location terms)
-	fv     *FnVC
+	cells       []string // local cells written directly (location terms)
+	fv          *FnVC
 }
 
 func (w *writeShape) pred(l string) string {
@@ -1292,6 +1334,14 @@ func (in *inst) loopWrites(l *loopInfo) (keys map[string]*writeShape, anything b
 						if ct := fv.eng.contracts[fn]; ct != nil && !ct.Synth {
 							if ct.AssignsAny {
 								anything = true
+								for _, a := range cc.Args {
+									if p, ok := a.(*ssa.Parameter); ok && fv.privName != "" && p.Name() == fv.privName {
+										if fv.loopPassesPriv == nil {
+											fv.loopPassesPriv = map[*loopInfo]bool{}
+										}
+										fv.loopPassesPriv[l] = true
+									}
+								}
 							} else if len(ct.Assigns) > 0 {
 								// heap keys of the callee's declared frame (evaluated on dummy arguments)
 								for k, srt := range in.assignsKeys(ct, fn) {
@@ -1600,7 +1650,7 @@ func (in *inst) cutHeader(n *vnode, l *loopInfo, edges []*vedge, conds []string)
 			}
 			sort.Strings(eks)
 		}
-		fv.havocAll(st, fmt.Sprintf("loop %d of %s contains calls with unknown effects", l.ord, funcKey(in.fn)))
+		fv.havocAllOpt(st, fmt.Sprintf("loop %d of %s contains calls with unknown effects", l.ord, funcKey(in.fn)), !fv.loopPassesPriv[l])
 		for _, k := range eks {
 			st.heaps[k] = epre[k]
 			fv.havocHeap(st, k, fv.frame[k].sort, in.loopRegion(k, l), nil)
